@@ -1,6 +1,7 @@
 """C04 HLL union (DESIGN.md section 5 C04; A6)."""
 import hll_rules as H
 import generic_lints
+import c19_rules
 
 
 def run(facts, tier):
@@ -14,6 +15,7 @@ def run(facts, tier):
         ("reset agreement", H.union_reset, 1, "reset() rebuilds the gadget with the constructor's parameters"),
         ("merge loops", H.merge_loops, 6, "every merge loop folds every source slot with max, no conditional skip"),
         ("register stores", H.register_stores, 10, "every register store is a max"),
+        ("reset completeness", lambda fa: c19_rules.reset_completeness(fa, ['hll_union_alloc','hll_sketch_alloc']), 2, "every field a mutator modifies is re-initialised by reset() (a reused object equals a fresh one); reviewed exceptions are configuration fields"),
         ("tautologies", lambda fa: generic_lints.tautologies(fa, ('hll/',)), 2, "no comparison / assignment / min-max with two identical operands, no if-else with identical arms"),
         ("duplicate operands", lambda fa: generic_lints.duplicate_conjuncts(fa, ('hll/',)), 2, "no logical chain tests the same operand twice (copy-paste of the wrong peer)"),
         ("stale aliases", lambda fa: generic_lints.stale_aliases(fa, ('hll/',)), 1, "no use of a local pointer alias after its origin was re-assigned and the replaced object released (use after free; the replacement never receives the operation)"),
